@@ -55,6 +55,7 @@ func c03Alphabet() []Op {
 		Op{K: "use"},
 		Op{K: "handle", P: "/a", Ms: []string{"TRACE"}}, // only without WithTrace: an ordinary method then
 		Op{K: "remove", P: "/a", Ms: []string{"GET", "POST"}},
+		Op{K: "remove", P: "/a", Ms: []string{"HEAD", "GET"}}, // a reserved name in front: skipped, GET still goes
 		// a base table in one step, so that depth-2 and depth-3 removals act on nodes that have routes below
 		// them, literal and parameter siblings and a sibling sharing a prefix
 		Op{K: "multi", Ps: []string{"/a", "/a/b", "/ab", "/{x}", "/a/{x}"}, Ms: []string{"GET"}},
